@@ -59,6 +59,8 @@ Inductive case :=
 | CExplicit (bounds : list num) (vals : list num) (o : hobs)
 | CExplicitRaw (given reported : list num) (vals : list num) (o : hobs)
 | CExpo (maxsize maxscale : Z) (vals : list num) (prev_scale : option Z) (o : eobs)
+| CExplicitMulti (bounds : list num) (vals : list (num * N)) (o : hobs)
+| CExpoMulti (maxsize maxscale : Z) (vals : list (num * N)) (o : eobs)
 | CBin (scale : Z) (v : num) (bin : Z)
 | CBigInt (v : Z) (bound : num) (counts : list N) (scale : Z) (bin : Z).
 
@@ -183,6 +185,82 @@ Definition check_expo (ms mxs : Z) (vals : list num) (prev : option Z) (o : eobs
   end
   end.
 
+(** ** Concurrent recording: a multiset of measurements (value, multiplicity)
+
+    G goroutines record known values into one attribute set; after they have joined, the point (for
+    delta explicit histograms: the sum of the points of all racing collections) must be what ANY
+    sequential order of the multiset gives.  Every clause used here is order-free: bucket counts,
+    count, sum (exact values only), min, max; for the exponential histogram also scale and window,
+    which depend only on the set of distinct values when the values fit at scale -10 (the scale is
+    the largest one at which both hulls fit, whatever the order). *)
+Definition wsum (l : list (Z * N)) : N := fold_right (fun q a => (snd q + a)%N) 0%N l.
+Definition wcount (p : Z -> bool) (l : list (Z * N)) : N :=
+  fold_right (fun q a => ((if p (fst q) then snd q else 0) + a)%N) 0%N l.
+Definition wzsum (l : list (Z * N)) : Z := fold_right (fun q a => fst q * Z.of_N (snd q) + a) 0 l.
+Definition wabs (l : list (Z * N)) : Z := fold_right (fun q a => Z.abs (fst q) * Z.of_N (snd q) + a) 0 l.
+Definition wsum_exact (isint : bool) (l : list (Z * N)) : bool :=
+  if isint then wabs l <? Z.shiftl 1 (63 + 1074)
+  else forallb (fun q => Z.shiftl (Z.shiftr (fst q) 1064) 1064 =? fst q) l && (wabs l <? Z.shiftl 1 (43 + 1074)).
+
+Fixpoint pairs_fx (l : list (num * N)) : option (list (Z * N)) :=
+  match l with
+  | [] => Some []
+  | (x, m) :: r => match num_fx x, pairs_fx r with
+                   | Some z, Some r' => Some ((z, m) :: r')
+                   | _, _ => None
+                   end
+  end.
+
+Definition check_explicit_multi (bounds : list num) (vals : list (num * N)) (o : hobs) : list N :=
+  match bounds_fx bounds, pairs_fx vals, num_fx (ho_min o), num_fx (ho_max o), num_fx (ho_sum o) with
+  | Some bz, Some pz, Some omin, Some omax, Some osum =>
+      let vz := map fst pz in
+      let ck := wsum_exact (vals_int (map fst vals)) pz in
+      let ks := nat_upto (S (length bz)) in
+      flag (nlist_eqb (ho_counts o) (map (fun k => wcount (fun v => (bucket_index bz v =? k)%nat) pz) ks) &&
+            (ho_count o =? wsum pz)%N && (omin =? zmin_l vz) && (omax =? zmax_l vz) &&
+            (negb ck || (osum =? wzsum pz))) V_MISMATCH ++
+      flag (strictly_increasing bz && forallb (fun q => (0 <? snd q)%N) pz &&
+            (length (ho_counts o) =? S (length bz))%nat && (nsum (ho_counts o) =? ho_count o)%N &&
+            (ho_count o =? wsum pz)%N &&
+            forallb (fun k => N.eqb (nth k (ho_counts o) 0%N) (wcount (in_explicit_bucketb bz k) pz)) ks &&
+            is_minb vz omin && is_maxb vz omax && (negb ck || (osum =? wzsum pz))) V_SPECFAIL
+  | _, _, _, _, _ => [V_MISMATCH]
+  end.
+
+Definition wtally_ok (t : list (Z * Z)) (s : Z) (sel : Z -> bool) (mag : Z -> Z) (pz : list (Z * N))
+                     (off : Z) (counts : list N) : bool :=
+  (nsum counts =? wcount sel pz)%N &&
+  forallb (fun k => N.eqb (nth k counts 0%N)
+                          (wcount (fun v => sel v && (spec_bin t s (mag v) =? off + Z.of_nat k)) pz))
+          (nat_upto (length counts)).
+
+Definition check_expo_multi (ms mxs : Z) (vals : list (num * N)) (o : eobs) : list N :=
+  match pairs_fx vals, num_fx (eo_min o), num_fx (eo_max o), num_fx (eo_sum o) with
+  | Some pz, Some omin, Some omax, Some osum =>
+      let vz := map fst pz in
+      match expo_table mxs vz with
+      | None => [V_MISMATCH]
+      | Some t =>
+          if negb (fits_b ms vz) then [V_MISMATCH]   (* order-free only when nothing underflows: harness keeps MaxSize >= 3 *)
+          else
+          let ck := wsum_exact (vals_int (map fst vals)) pz in
+          let st := expo_run (gb_of t) U ms mxs vz in
+          flag ((e_scale st =? eo_scale o) &&
+                (b_start (e_pos st) =? eo_pos_off o) && (blen (e_pos st) =? Z.of_nat (length (eo_pos o))) &&
+                (b_start (e_neg st) =? eo_neg_off o) && (blen (e_neg st) =? Z.of_nat (length (eo_neg o)))) V_MISMATCH ++
+          flag (forallb (fun q => (0 <? snd q)%N) pz &&
+                (eo_count o =? wsum pz)%N && (eo_zero o =? wcount (Z.eqb 0) pz)%N &&
+                (eo_count o =? eo_zero o + nsum (eo_pos o) + nsum (eo_neg o))%N &&
+                wtally_ok t (eo_scale o) (fun v => 0 <? v) (fun v => v) pz (eo_pos_off o) (eo_pos o) &&
+                wtally_ok t (eo_scale o) (fun v => v <? 0) Z.opp pz (eo_neg_off o) (eo_neg o) &&
+                (-10 <=? eo_scale o) && (eo_scale o <=? mxs) &&
+                (Z.of_nat (length (eo_pos o)) <=? ms) && (Z.of_nat (length (eo_neg o)) <=? ms) &&
+                is_minb vz omin && is_maxb vz omax && (negb ck || (osum =? wzsum pz))) V_SPECFAIL
+      end
+  | _, _, _, _ => [V_MISMATCH]
+  end.
+
 (** ** Single-value bucket probes (one value recorded at MaxScale = scale: Offset = bin) *)
 
 (** Immediate float64 neighbours of a positive finite float64, in the fixed-point unit. *)
@@ -250,6 +328,8 @@ Definition check_case (c : case) : list N :=
   | CExplicit bounds vals o => check_explicit bounds vals o
   | CExplicitRaw given reported vals o => check_explicit_raw given reported vals o
   | CExpo ms mxs vals prev o => check_expo ms mxs vals prev o
+  | CExplicitMulti bounds vals o => check_explicit_multi bounds vals o
+  | CExpoMulti ms mxs vals o => check_expo_multi ms mxs vals o
   | CBin s v bin => check_bin_case s v bin
   | CBigInt v bound counts s bin => check_bigint v bound counts s bin
   end.
